@@ -16,3 +16,25 @@ Definition z_mats_identical (fs : list (list (list Z))) : bool :=
   match fs with [] => true | A :: rest => forallb (mat_eqb A) rest end.
 Definition q_mats_identical (fs : list (list (list Qc))) : bool :=
   match fs with [] => true | A :: rest => forallb (list_eqb (list_eqb Qc_eq_bool) A) rest end.
+
+(* ---- wave 2: the transliterated implementation models (Model/C15Impl.v), executed group after group through a
+        materialised array as pyttb does, and compared EXACTLY with the spec on every generated input ---- *)
+From PV Require Import Model.C15Impl.
+Definition q_issym (T : dense Qc) (G : list (list nat)) : bool := spec_issym Qc_eq_bool (dshape T) (qden T) G.
+Definition q_sym_new_d (T : dense Qc) (G : list (list nat)) : dense Qc :=
+  fold_left (fun T g => tabulate (dshape T) (sym_new_group q0 q1 Qcplus Qcmult Qcinv Qc_eq_bool (dshape T) (qden T) g)) G T.
+Definition q_sym_old_d (T : dense Qc) (G : list (list nat)) : dense Qc :=
+  let s := dshape T in let N := length s in
+  fold_left (fun Y p => tabulate s (maxfix_step qmax (qden Y) p)) (sym_perms N G)
+            (tabulate s (sym_old_avg q0 q1 Qcplus Qcmult Qcinv N (qden T) G)).
+Definition q_dense_eqb (A B : dense Qc) : bool := nvec_eqb (dshape A) (dshape B) && list_eqb Qc_eq_bool (ddata A) (ddata B).
+Definition q_impls_agree (T : dense Qc) (G : list (list nat)) : bool :=
+  let S := tabulate (dshape T) (q_sym T G) in q_dense_eqb (q_sym_new_d T G) S && q_dense_eqb (q_sym_old_d T G) S.
+Definition z_issym_impls_agree (T : dense Z) (G : list (list nat)) : bool :=
+  let b := z_issym T G in
+  Bool.eqb (impl_issym_new Z.eqb (dshape T) (zden T) G) b && Bool.eqb (impl_issym_old Z.eqb (dshape T) (zden T) G) b.
+Definition q_issym_impls_agree (T : dense Qc) (G : list (list nat)) : bool :=
+  let b := q_issym T G in
+  Bool.eqb (impl_issym_new Qc_eq_bool (dshape T) (qden T) G) b && Bool.eqb (impl_issym_old Qc_eq_bool (dshape T) (qden T) G) b.
+(* a Kruskal tensor is symmetric in all modes (its denoted array passes the spec test on the single group of all modes) *)
+Definition q_k_symmetric (s : shape) (K : ktensor Qc) : bool := spec_issym Qc_eq_bool s (qden_k K) [seq 0 (length s)].
